@@ -30,15 +30,20 @@ Rf == <<239, 191, 189>>   Rg == <<240, 159, 152, 128>>
 \* pattern pool: prefixes / suffixes / infixes of each other, every rune width; "aab" contains two disjoint
 \* occurrences of "a" and ends after both (the interval-merge case of C06)
 Pool == << Ra, Ra \o Rb, Rb, Rb \o Ra, Ra \o Rb \o Ra, Rz, Ra \o Rz, Rz \o Ra, Rs, Ra \o Rs, Re, Rf, Rg \o Ra, Ra \o Rb \o Rz, Rb \o Rz \o Rb, Ra \o Ra \o Rb, Rb \o Ra \o Rb \o Ra >>
-PatSets == {S \in SUBSET (1..Len(Pool)) : S # {} /\ Cardinality(S) <= MaxSet}
+\* in "bytes" mode three more patterns that are NOT valid UTF-8 (a stray continuation byte inside, alone, and 0xFF)
+BadPats == << <<97, 128, 98>>, <<128>>, <<255, 97>> >>
+FullPool == IF Mode = "bytes" THEN Pool \o BadPats ELSE Pool
+\* (byte texts are combined with the patterns whose bytes occur in them: a, zhong, a-zhong, shi, U+FFFD and the three bad ones)
+PoolIdx == IF Mode = "bytes" THEN {1, 6, 7, 9, 12} \cup (Len(Pool) + 1..Len(Pool) + Len(BadPats)) ELSE 1..Len(Pool)
+PatSets == {S \in SUBSET PoolIdx : S # {} /\ Cardinality(S) <= MaxSet}
 SX == INSTANCE SequencesExt
 AsSeq(S) == SX!SetToSortSeq(S, LAMBDA a, b : a < b)
 \* only the runes that occur in the chosen patterns plus one foreign rune make interesting texts
 Texts == IF Mode = "valid" THEN {Flat(rs) : rs \in SeqsUpTo({Ra, Rb, Rz, Rs}, MaxText)}
          ELSE \* 193 161 (C1 A1) is an overlong two-byte form of "a": it must not be read as "a"
-              SeqsUpTo({97, 228, 184, 173, 255, 239, 191, 189, 193, 161}, MaxText)
+              SeqsUpTo({97, 98, 128, 228, 184, 173, 255, 239, 191, 189, 193, 161}, MaxText)
 
-PatOf(S) == LET q == AsSeq(S) IN [j \in 1..Len(q) |-> Pool[q[j]]]
+PatOf(S) == LET q == AsSeq(S) IN [j \in 1..Len(q) |-> FullPool[q[j]]]
 IsAt(t, p, i) == i + Len(p) <= Len(t) /\ SubSeq(t, i + 1, i + Len(p)) = p
 Occ(P, t) == {<<k, i>> : k \in 1..Len(P), i \in 0..Len(t)} \cap {o \in (1..Len(P)) \X (0..Len(t)) : IsAt(t, P[o[1]], o[2])}
 Covered(P, t) == {j \in 0..Len(t) - 1 : \E o \in Occ(P, t) : j >= o[2] /\ j < o[2] + Len(P[o[1]])}
@@ -77,7 +82,19 @@ WideCases == \A k \in {9, 10, 11, 12, 20} : LET P == WidePats(k) IN
         Emit([fn |-> "text", s |-> t, a |-> P, x |-> Schedules(Len(P)),
               out |-> [match |-> oc # {}, occ |-> AsSeq({o[1] * 100 + o[2] : o \in oc}),
                        runs |-> AsSeq({r[1] * 10000 + r[2] * 100 + r[3] : r \in Runs(P, t)})]])
+\* deep failure chains: each pattern of this pool is a suffix of the next, so that a state's nearest pattern end can lie
+\* two, three or four failure links away (and states in between are no pattern ends when their pattern is left out)
+DeepPool == << Rb, Ra \o Rb, Rb \o Ra \o Rb, Ra \o Rb \o Ra \o Rb, Ra, Rb \o Ra, Ra \o Rb \o Ra, Rb \o Ra \o Rb \o Ra, Rz \o Ra \o Rb \o Ra >>
+DeepSets == {S \in SUBSET (1..Len(DeepPool)) : Cardinality(S) \in {3, 4}}
+DeepCases == \A S \in DeepSets : LET P == [j \in 1..Cardinality(S) |-> DeepPool[AsSeq(S)[j]]] IN
+    \A t \in {Flat(rs) : rs \in SeqsUpTo({Ra, Rb, Rz}, MaxText)} :
+        LET oc == Occ(P, t) IN
+        Cardinality(oc) >= 2 =>
+            Emit([fn |-> "text", s |-> t, a |-> P, x |-> Schedules(Len(P)),
+                  out |-> [match |-> TRUE, occ |-> AsSeq({o[1] * 100 + o[2] : o \in oc}),
+                           runs |-> AsSeq({r[1] * 10000 + r[2] * 100 + r[3] : r \in Runs(P, t)})]])
 ASSUME TextCases
+ASSUME Mode = "valid" => DeepCases
 ASSUME Mode = "valid" => WideCases
 ASSUME Mode = "valid" => KeyCases
 Init == x = 0
